@@ -11,6 +11,9 @@ THEOREMS = ["Props.C14.c14_table", "Props.C14.c14_latch_never_negative", "Props.
 
 
 def run(check, tier):
+    import tie_common
+
+    tie_common.run_pyops(check, tier)
     import assign_suite as S
 
     units = S.all_unit_cases()
